@@ -32,7 +32,7 @@ MIN_NONTRIVIAL = {"quick": 500, "thorough": 20000}
 class Universe:
     """built once per shard: chain, pool transactions, store file"""
 
-    def __init__(self, seed):
+    def __init__(self, seed, long=False):
         import random
         from vf import simnet
         env.import_networking()
@@ -40,7 +40,13 @@ class Universe:
         self.simnet = simnet
         self.seed = seed
         rnd = random.Random(seed)
-        case = chainexec.gen_case(rnd, chainexec.CFGS[3], 9, 0.0, ["C01"], p_fork=0.35, p_tx=0.8, dts=[120, 10, 2])
+        self.long = long
+        if long:
+            # a chain of 70 blocks: heights from 64 on are written with two octets (0x80 0x40 ...), so that shorter and longer
+            # spellings of the same number exist for the block height
+            case = chainexec.gen_case(rnd, chainexec.CFGS[3], 70, 0.0, ["C01"], p_fork=0.04, p_tx=0.15, dts=[120, 10, 2])
+        else:
+            case = chainexec.gen_case(rnd, chainexec.CFGS[3], 9, 0.0, ["C01"], p_fork=0.35, p_tx=0.8, dts=[120, 10, 2])
         self.run = chainexec.Run(case, ("C20",))
         self.run.execute()
         if self.run.degenerate():
@@ -147,6 +153,7 @@ def templates(u, M, rnd, wire):
         lambda: M.InventoryMessage([M.InventoryItem(rnd.choice([M.DATA_BLOCK, M.DATA_BLOCK, M.DATA_TRANSACTION, b"\x00\x09"]), rnd.choice(known_ids_and_next + [b"\x06" * 32])) for _ in range(rnd.randrange(0, 4))]),
         lambda: M.GetDataMessage(rnd.choice([M.DATA_BLOCK, M.DATA_BLOCK, M.DATA_TRANSACTION, M.DATA_HEADER]), rnd.choice(known_ids + [b"\x07" * 32])),
         lambda: M.DataMessage(M.DATA_BLOCK, b.to_sk_block(rnd.choice(u.known))),
+        lambda: M.DataMessage(M.DATA_BLOCK, b.to_sk_block(rnd.choice(u.known[-8:] if u.long else u.known))),
         lambda: M.DataMessage(M.DATA_BLOCK, b.to_sk_block(rnd.choice(u.bad_blocks))),
         lambda: M.DataMessage(M.DATA_BLOCK, b.to_sk_block(rnd.choice(u.next_corrupt))),
         lambda: M.DataMessage(M.DATA_TRANSACTION, b.to_sk_tx(rnd.choice(u.pool_txs + u.bad_txs))),
@@ -160,7 +167,29 @@ def templates(u, M, rnd, wire):
     return rnd.choice(choices)()
 
 
-def corrupt(rnd, frames):
+M_DATA_BLOCK_PREFIX = b"\x00\x05\x00\x00\x01"      # placeholder, set by _set_prefix() from the real constants
+
+
+def _set_prefix(M):
+    global M_DATA_BLOCK_PREFIX
+    M_DATA_BLOCK_PREFIX = M.MSG_DATA + b"\x00" + M.DATA_BLOCK
+
+
+def respell_height(f, M, rnd):
+    """frame carrying a block -> the same frame with the block's height spelt in fewer octets (0x80 0x40 -> 0x40) or padded"""
+    f = bytearray(f)
+    p = 8 + len(M.MessageHeader(0, 0, 0, 0).serialize()) + len(M_DATA_BLOCK_PREFIX) + 1      # version octet, then the height
+    if f[8 + len(M.MessageHeader(0, 0, 0, 0).serialize()):p - 1] != M_DATA_BLOCK_PREFIX or p + 2 >= len(f):
+        return bytes(f)
+    if f[p] == 0x80 and f[p + 1] < 0x80 and rnd.random() < 0.7:
+        del f[p]
+    else:
+        f[p:p] = b"\x80"
+    f[4:8] = struct.pack(">I", len(f) - 8)
+    return bytes(f)
+
+
+def corrupt(rnd, frames, respell=False):
     """0-4 corruptions of a list of frames -> byte stream (0: intact but invalid / useless traffic)"""
     frames = list(frames)
     for _ in range(rnd.choice([0, 0, 1, 1, 1, 2, 3, 4])):
@@ -296,7 +325,13 @@ def one_case(u, rnd, res, M, record=None, force=None):
         stream = b"MAJI" + struct.pack(">I", rnd.randrange(0, 200)) + bytes(rnd.randrange(256) for _ in range(rnd.randrange(0, 260)))
     else:
         frames = [att.frame(templates(u, M, rnd, att), in_response_to=rnd.choice([0, 0, 3])) for _ in range(rnd.randrange(1, 5))]
+        _set_prefix(M)
         stream = corrupt(rnd, frames)
+        high = [x for x in u.known if x.height >= 64] if u.long else []
+        if high and rnd.random() < 0.5:
+            # a stored block of the two-octet height range, sent again with its height spelt differently (alone or among other traffic)
+            fr = respell_height(att.frame(M.DataMessage(M.DATA_BLOCK, u.b.to_sk_block(rnd.choice(high))), in_response_to=rnd.choice([0, 0, 3])), M, rnd)
+            stream = fr if rnd.random() < 0.6 else (stream + fr if rnd.random() < 0.5 else fr + stream)
     if pre == "download" and rnd.random() < 0.3:
         # the combination that matters while a download is under way: an INTACT block that breaks a chain rule, pushed by the attacker
         rule = [x for x in u.bad_blocks if not _structural(u, x)]
@@ -315,7 +350,7 @@ def one_case(u, rnd, res, M, record=None, force=None):
         net.drain(rnd, only=[node])
     after = snap()
     post = force.get("post", rnd.randrange(4))
-    case = {"stream": stream.hex(), "greeted": greeted, "pre": pre, "post": post, "uni_seed": u.seed}
+    case = {"stream": stream.hex(), "greeted": greeted, "pre": pre, "post": post, "uni_seed": u.seed, "long": u.long}
     res.evaluations += 1
     handled = len(att.collect())
     # classification for the non-trivial rule: did the node decode at least one frame / reach a handler?
@@ -458,10 +493,10 @@ def run(shard, tier, seed):
     res = Result()
     if shard["kind"] == "persistent":
         return run_persistent(res, tier, seed)
-    u = Universe(env.subseed(seed, ID, "uni", shard["i"] % 4))
+    u = Universe(env.subseed(seed, ID, "uni", shard["i"] % 4), long=shard["i"] == 14)
     u.simnet.install()
     from skepticoin.networking import messages as M
-    n = 500 if tier == "quick" else 12000
+    n = (500 if tier == "quick" else 12000) // (3 if shard["i"] == 14 else 1)      # (the long universe is slower per case)
 
     @hypothesis.seed(env.subseed(seed, ID, shard["i"]))
     @settings(max_examples=n, deadline=None, database=None, suppress_health_check=list(hypothesis.HealthCheck), phases=[hypothesis.Phase.generate])
@@ -481,7 +516,7 @@ def replay(case):
     res = Result()
     if "persistent" in case:
         return run_persistent(res, "thorough" if case["persistent"] != "garbage" else "quick", 1).failures
-    u = Universe(case.get("uni_seed", env.subseed(1, ID, "uni", 0)))
+    u = Universe(case.get("uni_seed", env.subseed(1, ID, "uni", 0)), long=bool(case.get("long")))
     u.simnet.install(random.Random(0))
     from skepticoin.networking import messages as M
     force = {k: case[k] for k in ("greeted", "pre", "post") if k in case}
